@@ -60,6 +60,16 @@ func runChild(cfg *supConfig, spec WorkerSpec, gomaxprocs int) childOutcome {
 		cmd = exec.Command("unshare", append([]string{"-n", "sh", "-c", script, os.Args[0]}, args...)...)
 	}
 	cmd.Env = append(os.Environ(), "VERIF_ROLE=worker", "VERIF_SPEC="+string(b), "GOMAXPROCS="+strconv.Itoa(gomaxprocs))
+	if spec.Prop == "C14" {
+		racelog := spec.Out + ".race"
+		cmd.Env = append(cmd.Env, "VERIF_RACELOG="+racelog, "GORACE=log_path="+racelog+" halt_on_error=0 history_size=3")
+		defer func() {
+			matches, _ := filepath.Glob(racelog + ".*")
+			for _, m := range matches {
+				os.Remove(m)
+			}
+		}()
+	}
 	var tail bytes.Buffer
 	pr, pw, _ := os.Pipe()
 	cmd.Stderr = pw
@@ -97,6 +107,9 @@ func runChild(cfg *supConfig, spec WorkerSpec, gomaxprocs int) childOutcome {
 	}
 	if strings.Contains(co.stderr, "WATCHDOG") {
 		co.watchdog = true
+	}
+	if co.exit == 1 && spec.Prop == "C14" && strings.Contains(co.stderr, "race detected during execution of test") {
+		co.exit = 0 // the testing package fails a test during which the detector fired; the reports are in the result
 	}
 	if co.exit == 0 {
 		if rb, err := os.ReadFile(spec.Out); err == nil {
@@ -367,7 +380,11 @@ func supervisorMain() int {
 				}
 				for from < to {
 					spec := WorkerSpec{Prop: cfg.Prop, Tier: cfg.Tier, Seed: cfg.Seed, From: from, To: to, Out: filepath.Join(cfg.WorkDir, fmt.Sprintf("w%d-%d.json", wkr, from)), ReplayDir: cfg.ReplayDir}
-					co := runChild(cfg, spec, 1)
+					gmp := 1
+					if cfg.Prop == "C14" {
+						gmp = []int{1, 4, 16}[(from/max(chunk, 1))%3]
+					}
+					co := runChild(cfg, spec, gmp)
 					if co.res != nil {
 						agg.merge(co.res)
 						break
